@@ -253,8 +253,12 @@ func Build(s Spec, mons ...vnet.Monitor) *Built {
 		cfg.MaxClock = time.Duration(cfg.Heights) * 200 * cfg.TPB
 		initTx = r.Intn(6)
 	case "silent-f", "partition", "amnesia":
-		cfg = baseConfig(s, r, Opt{Ns: []int{4, 4, 5, 6, 7, 7, 8, 10}, MinH: 2, MaxH: 4, AMEVModes: []int{0, 0, 1}})
+		cfg = baseConfig(s, r, Opt{Ns: []int{4, 4, 5, 6, 7, 7, 8, 10}, MinH: 2, MaxH: 4, AMEVModes: []int{0, 0, 1}, Dyn: 1})
 		cfg.K = vnet.Knobs{Sync: true, PDup: 0.03, PNewTx: 0.01, NotifyAll: true, PSyncLedger: []float64{0.002, 0.02}[r.Intn(2)], SlowNode: -1, ResetDelayNode: -1}
+		idle := cfg.MaxTPB > 0 && r.Intn(2) == 0 // dynamic block time on an idle chain: nobody ever has a transaction
+		if idle {
+			cfg.K.PNewTx = 0
+		}
 		if r.Intn(2) == 0 {
 			cfg.LatMin, cfg.LatMax = cfg.TPB/100, cfg.TPB/50
 		}
@@ -264,6 +268,9 @@ func Build(s Spec, mons ...vnet.Monitor) *Built {
 		cfg.MaxSteps = 60000
 		cfg.MaxClock = 0
 		initTx = r.Intn(5)
+		if idle {
+			initTx = 0
+		}
 	default:
 		panic("unknown profile " + s.Profile)
 	}
@@ -431,6 +438,9 @@ func Build(s Spec, mons ...vnet.Monitor) *Built {
 	if rejecting {
 		// some verifiers reject the completed block of some (height, view 0)
 		for _, n := range c.Nodes {
+			if r.Intn(4) == 0 {
+				n.NoPoolOnSupply = true // this application does not pool what it hands to OnTransaction
+			}
 			for h := 1; h <= cfg.Heights; h++ {
 				if r.Intn(4) == 0 {
 					n.RejectBlocks[[2]uint32{cfg.BaseHeight + uint32(h), 0}] = true
